@@ -47,6 +47,8 @@ type PipelineRunner struct {
 
 	// Wait group for waiting for asynchronous operations like job.Cancel
 	wg sync.WaitGroup
+	// Mutex for serializing saves (a save must not overtake another one, especially not the final save on shutdown)
+	saveMx sync.Mutex
 	// Flag if the runner is shutting down
 	isShuttingDown bool
 
@@ -726,8 +728,10 @@ func (r *PipelineRunner) initialLoadFromStore() error {
 }
 
 func (r *PipelineRunner) SaveToStore() {
-	r.wg.Add(1)
-	defer r.wg.Done()
+	// Saves are serialized by a mutex and not tracked in r.wg: calling wg.Add here concurrently to wg.Wait in Shutdown
+	// (e.g. from the persist loop) is not allowed for a WaitGroup and panics
+	r.saveMx.Lock()
+	defer r.saveMx.Unlock()
 
 	log.
 		WithField("component", "runner").
